@@ -50,7 +50,13 @@ pub fn gen_source(rng: &mut Prng, kind: Kind) -> SourceSpec {
         1 => gen_seed_bytes(rng, n.min(64)),
         _ => rng.bytes(n),
     };
-    SourceSpec { prefix, key: rng.u64(), fault: None }
+    SourceSpec { zero_run: 0, prefix, key: rng.u64(), fault: None }
+}
+
+/// A source that stays at zero for tens of thousands of blocks before it delivers something else
+/// (a stuck-at-zero entropy source that recovers). Only XorShiftRng redraws, so only it reads the run.
+pub fn gen_long_zero_source(rng: &mut Prng) -> SourceSpec {
+    SourceSpec { zero_run: 16 * rng.range(150_000, 400_000) as usize, prefix: rng.bytes(16), key: rng.u64() | 1, fault: None }
 }
 
 /// A seed through any infallible route.
